@@ -138,6 +138,11 @@ func toUnicodeChar(r comb.Result) (comb.Result, bool) {
 		}
 	}
 
+	// Up to eight hex digits can spell a value that is not a Unicode code point.
+	if c > 0x10FFFF {
+		return comb.Result{}, false
+	}
+
 	return comb.Result{
 		Val: rune(c),
 		Pos: l[0].Pos,
